@@ -332,7 +332,7 @@ class Facts:
         for x in a:
             if 't' in x: out.append(self.strs[x['t']])
             elif 'i' in x: out.append(x['i'])
-            elif 'd' in x: out.append('&' + self.strs[x['d']])
+            elif 'd' in x: out.append('&' + self.strs[x['d']] + (('<' + ', '.join(str(y) for y in (self.targs(x['da']) or [])) + '>') if x.get('da') else ''))
             elif 'tt' in x: out.append(self.strs[x['tt']])
             else: out.append('?')
         return out
